@@ -1,22 +1,23 @@
+\* quick: 1 node, 3 entries, leadership signals and outages unlimited, no restart
 SPECIFICATION Spec
 CONSTANTS
   Node = {n1}
-  MaxIdx = 2
+  MaxIdx = 3
   Multi = {2}
   BatchSz = 2
-  InCap = 2
+  InCap = 0
   AsyncHWM = FALSE
   SigCap = 2
   MaxFlips = 99
   MaxLeaders = 1
-  MaxRestarts = 1
-  MaxSnaps = 1
-  MaxDowns = 0
+  MaxRestarts = 0
+  MaxSnaps = 0
+  MaxDowns = 99
   OneGroupPerEntry = TRUE
   LabelEveryGroup = TRUE
   KeyByHighest = TRUE
   SyncFlushBeforeSnapshot = TRUE
-  DrainInBeforeSync = FALSE
+  DrainInBeforeSync = TRUE
   HWMAfterSendOK = TRUE
   PruneToHWMOnly = TRUE
   RewindCursor = TRUE
